@@ -281,7 +281,7 @@ def run(tier, seed):
             gens.append(res)
     n_scn = sum(g.scn for g in gens)
     cli_every = 11 if tier == "quick" else 37
-    out = vlib.replay(ENGINE, scen, env={"TXN_CLI_EVERY": str(cli_every)}, timeout=60)
+    out = vlib.replay(ENGINE, scen, env={"TXN_CLI_EVERY": str(cli_every)}, timeout=20)
     if out.total != n_scn and not out.errors:
         raise vlib.Inconclusive("replayed %d of %d scenarios" % (out.total, n_scn))
     absorb(v, out, scen)
